@@ -13,6 +13,7 @@
     memFk o : belongs-to only: the in-memory foreign key field of operated record o (0 = nil)
   Keys are Nat, 0 = "no key" (a new record).  Values with a preset key are assumed < next (driver rejects others).
 -/
+import GormModel.Model.Identity
 namespace Gorm.Assoc
 
 inductive Cls | bt | fk | m2m
@@ -153,10 +154,17 @@ def deleteRows (c : Nat × Nat → Bool) (s : St) : St :=
   let gone := (s.links.filter c).map (·.2)
   { s with links := s.links.filter (fun p => !c p), targets := s.targets.filter (· ∉ gone) }
 
+/-- schema.GetIdentityFieldValuesMap keeps ONE entry per distinct key: the owners that contribute an entry to
+    `oldBelongsToExpr` are the first owner of every distinct non-zero in-memory fk -/
+def firstByFk (fk : Nat → Nat) : List Nat → List Nat → List Nat
+  | [], _ => []
+  | o :: os, seen =>
+    if fk o = 0 ∨ fk o ∈ seen then firstByFk fk os seen else o :: firstByFk fk os (fk o :: seen)
+
 /-- association.go Replace -/
 def replace (r : Rel) (os : List Nat) (uns : Bool) (vals : List (List Nat)) (s : St) : St :=
   -- `oldBelongsToExpr`: the owners whose in-memory fk is non-zero before the save (Unscoped belongs-to only)
-  let oldOwners := if r.cls = .bt ∧ uns then os.filter (fun o => s.memFk o ≠ 0) else []
+  let oldOwners := if r.cls = .bt ∧ uns then firstByFk s.memFk os [] else []
   let s1 := saveAssociation r true os vals s
   if s1.err then s1 else
   match r.cls with
@@ -235,5 +243,30 @@ def count (r : Rel) (os : List Nat) (s : St) : Nat := (findIds r os s).length
 def memKeys (s : St) (o : Nat) : List Nat := (nz (s.mem o)).eraseDups
 
 def linksOf (s : St) (o : Nat) : List Nat := ((s.links.filter (fun p => p.1 = o)).map (·.2)).eraseDups
+
+/-! Composite primary keys: the two places of association mode that identify records through
+    `utils.ToStringKey` (key tuples are lists of rendered components, `joinKey` = strings.Join(_, "_")). -/
+
+/-- callbacks/associations.go `identityMap[cacheKey]`: the elements that are upserted are the first element of
+    every distinct key STRING -/
+def distinctByKey : List (List (List Char)) → List (List Char) → List (List (List Char))
+  | [], _ => []
+  | e :: es, seen =>
+    if joinKey e ∈ seen then distinctByKey es seen else e :: distinctByKey es (joinKey e :: seen)
+
+/-- reference: first element of every distinct key TUPLE -/
+def distinctByTuple : List (List (List Char)) → List (List (List Char)) → List (List (List Char))
+  | [], _ => []
+  | e :: es, seen =>
+    if e ∈ seen then distinctByTuple es seen else e :: distinctByTuple es (e :: seen)
+
+/-- association.go cleanUpDeletedRelations: the in-memory elements kept by `Delete(named…)` are those whose key
+    STRING is not the key string of a named record -/
+def keepByKey (field named : List (List (List Char))) : List (List (List Char)) :=
+  field.filter (fun e => joinKey e ∉ named.map joinKey)
+
+/-- reference: the elements whose key TUPLE is not named -/
+def keepByTuple (field named : List (List (List Char))) : List (List (List Char)) :=
+  field.filter (fun e => e ∉ named)
 
 end Gorm.Assoc
